@@ -275,6 +275,126 @@ def gen_history(rng, n, etags):
     return hist
 
 
+def open_world(permit_delete=True, permit_overwrite=True):
+    """Every user may do everything below the paths of the universe (the rights layer never interferes)."""
+    paths = [(), (10,), (11,), (10, 20), (10, 21), (11, 20), (11, 22), (10, 22)]
+    pols = [(USER_NAME.get(u), {p_: ("RrWw" if u else "") for p_ in paths}) for u in USERS]
+    return (permit_delete, permit_overwrite), pols
+
+
+EMPTY_VALUE = 7     # property value id standing for the empty string (<prop/> inside D:set)
+
+
+def directed_cases():
+    """Decision tables of the handlers as short histories: every combination of the conditions a handler tests is
+    produced once, deterministically (the random generator reaches some of them only rarely).  Each history ends
+    with observers so that the effect shows in the responses as well as in the final store."""
+    import itertools
+    out = []
+    cal, cal2, adr = (10, 20), (10, 22), (10, 21)
+    ev = lambda uid, cid=0: (uid, "CEvent", cid)            # noqa: E731
+    cd = lambda uid, cid=0: (uid, "CCard", cid)             # noqa: E731
+    mk = {cal: ("RMkcalendar", cal, ("XNone",)), cal2: ("RMkcalendar", cal2, ("XNone",)),
+          adr: ("RMkcol", adr, ("XProps", ("TRSet", "TAdr"), []))}
+
+    def put(path, o, im=("CNone",), inm=False, ct="CTNone"):
+        return ("RPut", path, ct, ("BCards" if o[1] == "CCard" else "BCal", [o]), im, inm)
+
+    def observe(*colls):
+        return [("RPropfind", c, True) for c in colls]
+
+    def hist(reqs):
+        return [(1, r) for r in reqs]
+
+    # --- MOVE: destination collection x destination state x Overwrite
+    for dst_c, dst_state, ow in itertools.product((cal, cal2, adr), ("absent", "same-uid", "other-uid", "uid-elsewhere", "collection"), (True, False)):
+        src = cal + (100,)
+        reqs = [mk[cal]] + ([mk[dst_c]] if dst_c != cal else []) + [put(src, ev(0))]
+        to = dst_c + (101,)
+        mkobj = cd if dst_c == adr else ev
+        if dst_state == "same-uid":
+            if dst_c == cal:
+                continue                                   # two names with one UID cannot be set up in one collection
+            reqs.append(put(to, mkobj(0, 1)))
+        elif dst_state == "other-uid":
+            reqs.append(put(to, mkobj(1, 1)))
+        elif dst_state == "uid-elsewhere":
+            if dst_c == cal:
+                continue
+            reqs.append(put(dst_c + (103,), mkobj(0, 2)))
+        elif dst_state == "collection":
+            to = dst_c
+        reqs.append(("RMove", src, True, to, ow))
+        reqs += observe(cal, dst_c) + [("RGet", src), ("RGet", to)]
+        out.append((open_world(), hist(reqs)))
+    # --- PUT of an item: target state x body kind x conditions
+    for coll, state, body, cond in itertools.product((cal, adr), ("absent", "exists", "uid-elsewhere"),
+                                                     ("right", "wrong-type", "other-uid"),
+                                                     ("none", "if-match-right", "if-match-stale", "if-match-star", "if-none-match")):
+        right, wrong = (cd, ev) if coll == adr else (ev, cd)
+        tgt = coll + (100,)
+        reqs = [mk[coll]]
+        old = right(0)
+        if state == "exists":
+            reqs.append(put(tgt, old))
+        elif state == "uid-elsewhere":
+            reqs.append(put(coll + (103,), old))
+        new = {"right": right(0, 1), "wrong-type": wrong(0, 1), "other-uid": right(2, 1)}[body]
+        im, inm = ("CNone",), False
+        if cond == "if-match-right":
+            im = ("CTag", ("EtItem", old))
+        elif cond == "if-match-stale":
+            im = ("CTag", ("EtItem", right(3, 2)))
+        elif cond == "if-match-star":
+            im = ("CStar",)
+        elif cond == "if-none-match":
+            inm = True
+        reqs.append(put(tgt, new, im, inm))
+        reqs += observe(coll) + [("RGet", tgt)]
+        out.append((open_world(), hist(reqs)))
+    # --- DELETE: item / collection x If-Match x permit_delete_collection
+    for what, cond, permit in itertools.product(("item", "collection", "missing"), ("none", "right", "stale", "star"), (True, False)):
+        reqs = [mk[cal], put(cal + (100,), ev(0)), put(cal + (101,), ev(1))]
+        tgt = {"item": cal + (100,), "collection": cal, "missing": cal + (102,)}[what]
+        im = {"none": ("CNone",), "right": ("CTag", ("EtItem", ev(0))) if what != "collection" else ("CTag", ("EtColl",)),
+              "stale": ("CTag", ("EtItem", ev(3, 2))), "star": ("CStar",)}[cond]
+        reqs.append(("RDelete", tgt, im))
+        reqs += observe((10,), cal) + [("RGet", cal + (100,))]
+        out.append((open_world(permit_delete=permit), hist(reqs)))
+    # --- PROPPATCH: set / remove / set-to-empty on a property that exists or not, then read it back
+    for first, second in itertools.product(([], [(1, 1)], [(1, EMPTY_VALUE)], [(1, 1), (2, 2)]),
+                                           ([(1, 2)], [(1, None)], [(1, EMPTY_VALUE)], [(2, EMPTY_VALUE), (3, 1)], [(1, EMPTY_VALUE), (1, 2)],
+                                            [(3, None), (3, EMPTY_VALUE)])):
+        reqs = [mk[cal]]
+        if first:
+            reqs.append(("RProppatch", cal, ("XProps", ("TRNone",), first)))
+        reqs.append(("RProppatch", cal, ("XProps", ("TRNone",), second)))
+        reqs += [("RPropfind", cal, False)] + observe((10,))
+        out.append((open_world(), hist(reqs)))
+    # --- MKCOL / MKCALENDAR: target state x parent kind
+    for meth, where in itertools.product(("RMkcol", "RMkcalendar"), ("fresh", "exists", "below-calendar", "below-item", "no-parent", "on-item")):
+        reqs = [mk[cal], put(cal + (100,), ev(0))]
+        tgt = {"fresh": cal2, "exists": cal, "below-calendar": cal + (21,), "below-item": cal + (100, 21), "no-parent": (10, 22, 21),
+               "on-item": cal + (100,)}[where]
+        reqs.append((meth, tgt, ("XNone",)))
+        reqs += observe((10,), cal)
+        out.append((open_world(), hist(reqs)))
+    # --- PUT of a whole collection: target state x permit_overwrite x body
+    for state, permit, body in itertools.product(("absent", "calendar-with-items", "address-book", "plain"), (True, False), ("cal2", "cards2", "empty", "bad")):
+        reqs = []
+        if state == "calendar-with-items":
+            reqs += [mk[cal], put(cal + (100,), ev(0)), put(cal + (101,), ev(1))]
+        elif state == "address-book":
+            reqs += [("RMkcol", cal, ("XProps", ("TRSet", "TAdr"), [])), put(cal + (200,), cd(0))]
+        elif state == "plain":
+            reqs += [("RMkcol", cal, ("XNone",))]
+        b = {"cal2": ("BCal", [ev(2, 1), (3, "CTodo", 0)]), "cards2": ("BCards", [cd(2, 1), cd(3)]), "empty": ("BEmpty",), "bad": ("BBad",)}[body]
+        reqs.append(("RPut", cal, "CTCard" if body == "empty" else "CTNone", b, ("CNone",), False))
+        reqs += observe((10,), cal)
+        out.append((open_world(permit_overwrite=permit), hist(reqs)))
+    return out
+
+
 # ------------------------------------------------------------------------------- concrete requests
 def xml_props(x, root):
     if x[0] == "XBad":
@@ -293,6 +413,8 @@ def xml_props(x, root):
         tag = KEYS[k]
         if v is None:
             seq.append(("remove", "<%s/>" % tag))
+        elif v == EMPTY_VALUE:
+            seq.append(("set", "<%s/>" % tag))
         else:
             seq.append(("set", "<%s>v%d</%s>" % (tag, v, tag)))
     body = "".join("<D:%s><D:prop>%s</D:prop></D:%s>" % (kind, el, kind) for kind, el in seq)
@@ -485,7 +607,7 @@ class Runner:
                         v = props.get(hk)
                         if v and v[0] == 200:
                             m = re.fullmatch(r"v(\d+)", v[1].text or "")
-                            pl.append((k, int(m.group(1)) if m else 99))
+                            pl.append((k, int(m.group(1)) if m else (EMPTY_VALUE if not (v[1].text or "") else 99)))
                     entries.append(("CEColl", p, tag, sorted(pl), writable))
                 else:
                     et = props.get("D:getetag")
@@ -551,7 +673,7 @@ def dump_store(folder, etags):
             for k, hk in KEYS.items():
                 if hk in meta:
                     m = re.fullmatch(r"v(\d+)", meta[hk])
-                    props.append((k, int(m.group(1)) if m else 99))
+                    props.append((k, int(m.group(1)) if m else (EMPTY_VALUE if meta[hk] == "" else 99)))
         subs = []
         for e in sorted(os.listdir(d)):
             if not safe(e):
